@@ -14,7 +14,7 @@ EXPLANATION = (
     "to offs+len of the consumed token on its success path, and the statement span is [first.offs, tok_end) or the "
     "mnemonic's own span. R4: directive words carry join(directive, literal), and join is [min offs, max end). "
     "R5 (EFF): the debugger's source view is built from the very AIR the image was emitted from and is never written."
-    ' R4 is decided on emission summaries with call identity (directive token vs operand token). R7: a prefix label taken by the parser is entered into the symbol table on every way to the next statement. R8: the functions of the source view that print a slice of the stored source do so under an output category whose writer arm does not scan the text (the markup categories are read from DebuggerWriter::write_str). R9 (TAB): every lexer scan that can end in an identifier has a predicate that is false on each separator character of the lexer (is_whitespace evaluated over ASCII), so a label name never contains its colon.'
+    ' R4 is decided on emission summaries with call identity (directive token vs operand token). R7: a prefix label taken by the parser is entered into the symbol table on every way to the next statement. R8: the functions of the source view that print a slice of the stored source do so under an output category whose writer arm does not scan the text (the markup categories are read from DebuggerWriter::write_str). R11: a function of the source view that returns Some(piece of the stored source) returns the slice under the span itself, nothing computed from it. R9 (TAB): every lexer scan that can end in an identifier has a predicate that is false on each separator character of the lexer (is_whitespace evaluated over ASCII), so a label name never contains its colon.'
     " R1 also: the offset helper is evaluated on a grid of origins, addresses and offsets around both bounds and must answer Some(address + offset) exactly for sums in [origin, 0xFE00); the statement lookup is bounded by the statement count itself."
     " R10: the Display implementation of output::Decolored (the --minimal filter) singles out only ESC and m and calls no character-class predicate."
 )
@@ -539,6 +539,40 @@ def run(ctx):
                               "`%s` prints the statement text under category %s, whose writer arm scans the text for `{...}` markup: a statement containing a brace "
                               "(a .stringz literal) is shown with the braced part cut out" % (short(n), cat or "computed at run time"))
     ctx.need(nshow >= 1, "a function of the source view that prints a slice of the stored source")
+    ctx.finish_rule()
+
+    # ------------------------------------------------------------------ R11
+    # what the source view hands back for a statement is the stored text under the statement's span, whole: a function of the view that
+    # returns Some(piece of src) returns the slice itself, with nothing computed from it in between (first line only, trimmed, ...)
+    ctx.rule("C17.R11", "the source view hands back the text under a statement's span unchanged", floor=1)
+    IDX = r"Index<I> for str>::index$"
+    def _peel(e):
+        while e and e[0] in ("ref", "deref") and len(e) > 1:
+            e = e[1]
+        return e
+    nret = 0
+    for n, f in sorted(prog.fns.items()):
+        if f.bkind != "fn" or not n.startswith("lace::debugger::asm::"):
+            continue
+        for kind, db, i, node in f.defs().get(0, []):
+            if kind != "stmt":
+                continue
+            e = f.rvalue_expr(node["r"], 12)
+            if not (e[0] == "agg" and e[1][0] == "adt" and len(e[1]) > 2 and e[1][2] == "Some" and len(e) > 2 and e[2]):
+                continue
+            idx = [x for x in expr_walk(e) if x[0] == "call" and re.search(IDX, str(x[1])) and "src" in expr_str(x, 400)]
+            if not idx:
+                continue
+            nret += 1
+            ctx.instance(1)
+            top = _peel(e[2][0])
+            ok = top[0] == "call" and re.search(IDX, str(top[1])) is not None
+            ctx.oblig(ok, {"returned by": short(n), "value": expr_str(top, 160)}, "the slice src[span] itself")
+            if not ok:
+                ctx.violation("source-slice-reworked|%s" % short(n), f.file_line(),
+                              "`%s` does not hand back the stored text under the span but something computed from it (`%s`): a statement that spans "
+                              "more than what the computation keeps is shown cut" % (short(n), expr_str(top, 200)))
+    ctx.need(nret >= 1, "a function of the source view that returns Some(slice of the stored source)")
     ctx.finish_rule()
 
     # ------------------------------------------------------------------ R9
